@@ -18,6 +18,7 @@ Bys == {<<>>} \cup {<<f>> : f \in CatFields \cup NumFields \cup OptFields}
          \cup {<<a, b>> : a \in CatFields, b \in NumFields}
          \* two fields over the same value domain: the groups (u, v), (v, u) and (v, v) all occur
          \cup {<<a, b>> : a \in NumFields, b \in OptFields} \cup {<<b, a>> : a \in NumFields, b \in OptFields}
+         \cup {<<a, b>> \in NumFields \X NumFields : a # b}
 OpsOf(f) == Ops
 Wheres == {[tag |-> "true"]} \cup RandomSubset(WhereSample, Leaves(NumFields, OpsOf, Probes))
 Pers == {"none"} \cup DOMAIN BucketTables
